@@ -190,6 +190,21 @@ func (c *Ctx) Violation(sig string, replay any) {
 	fmt.Printf("  signature: %s\n", sig)
 }
 
+// IsKnown reports whether sig matches an open known finding.
+func (c *Ctx) IsKnown(sig string) bool {
+	c.mu.Lock()
+	defer c.mu.Unlock()
+	for _, k := range c.known {
+		if k.Status != "open" {
+			continue
+		}
+		if re, err := regexp.Compile(k.Signature); err == nil && re.MatchString(sig) {
+			return true
+		}
+	}
+	return false
+}
+
 // Violations returns the number of (unknown) violations so far.
 func (c *Ctx) Violations() int { c.mu.Lock(); defer c.mu.Unlock(); return c.violations }
 
